@@ -1,0 +1,40 @@
+//! C28 — preferred relay choice (`Client::add_report_history_and_set_preferred_relay`).
+#![cfg(all(not(wasm_browser), with_crypto_provider))]
+use iroh_dns::dns::DnsResolver;
+use iroh_relay::{
+    RelayMap,
+    tls::{CaTlsConfig, default_provider},
+};
+
+use crate::net_report::{Client, Options, Report};
+
+/// A net-report client with an empty relay map, used only for its report history.
+#[derive(Debug)]
+pub struct History(Client);
+
+impl History {
+    /// Must be called inside a tokio runtime (the history is keyed by `Instant::now()`
+    /// of the tokio clock, which the caller may pause and advance).
+    pub fn new() -> Self {
+        let tls_config = CaTlsConfig::embedded()
+            .client_config(default_provider())
+            .expect("infallible");
+        let opts = Options::new(tls_config);
+        History(Client::new(
+            DnsResolver::new(),
+            RelayMap::empty(),
+            opts,
+            Default::default(),
+        ))
+    }
+
+    /// `Client::add_report_history_and_set_preferred_relay`.
+    pub fn add(&mut self, r: &mut Report) {
+        self.0.verif_add_report_history_and_set_preferred_relay(r)
+    }
+
+    /// Number of reports kept in the history.
+    pub fn prev_len(&self) -> usize {
+        self.0.verif_prev_len()
+    }
+}
